@@ -210,3 +210,21 @@ Theorem C18_failed_leave_notification :
                OSend h' (event_msg (bs "MEMBER_LEFT") chf (nid_full n) was_owner) None) hs1 ++
             [mod_joined pick] ++ ack_out req id)))).
 Proof. exact C18_leave_failed. Qed.
+
+(* ---------- interleaved semantics (Model/Conc.v): every schedule of suspended requests, disconnects, time-outs ---------- *)
+From Coq Require Import List NArith.
+From NW Require Import Model.Conc Proofs.ConcDefs Proofs.ConcEv Proofs.ConcInv Proofs.ConcSmall Proofs.ConcSource Gen.ConcFlags.
+Import ListNotations.
+Local Open Scope N_scope.
+
+Theorem C18_conc_event_confinement :
+  forall (cf : ccfg) (es : list ev) (e : ev) (c : conn) (kind : N) 
+      (ch : chan) (n : user) (own : bool),
+    let s := cstate_after cf es in
+    In (OEvent c kind ch n own) (snd (cstep cf s e)) ->
+    exists u : user, cuser (cg s) c = Some u /\ In c (reg (cg s) u).
+Proof. exact conc_event_confinement. Qed.
+
+Theorem C18_source_segment_layout :
+  forallb snd conc_source_shape = true.
+Proof. exact source_segment_layout. Qed.
